@@ -41,6 +41,9 @@ def check(run):
         _batch(run, prog, bs, method, original)
     _batch_one(run, prog, bs)
     _interval(run, prog, isg, bs)
+    # a caller-supplied storage / imputer and the configured lengths are used as given
+    from . import c06, c07
+    c06.depends_on(run, "C15", {"DEFAULTS", "CTOR"}, only=lambda rule, inst: inst.startswith(("BatchSage", "IntervalSage")))
     # the sliding window itself: IntervalStorage keeps exactly the last `size` observations and exposes them live
     from . import c06, c07
     ist = prog.find_class("IntervalStorage")
